@@ -74,6 +74,7 @@ func driveXIBC(t *testing.T, in, out string, seed int64) {
 			}
 		}
 		w := NewWorld(names)
+		RoundTripAtEnd("xibc", bi, w.Chains)
 		tw.Emit(M{"ev": "Reset", "b": bi, "i": 0, "res": "ok", "st": w.allStates(), "sig": "Reset", "args": M{}})
 		for si, st := range b {
 			act := str(st["act"])
